@@ -156,6 +156,49 @@ def collect_lets(body_value):
     return lets
 
 
+ITER_ADAPTERS = ("peekable", "enumerate", "iter", "into_iter", "by_ref", "iter_mut")
+ITER_DRAW = ("peek", "next", "peek_mut")
+
+
+_LEGACY = False   # set only by the key-migration script: previous key scheme
+
+
+def iter_source(e, seen_iter=False):
+    """For the expression a pattern draws its bindings from: if it is an element drawn from an iterator (`it.peek()`,
+    `it.next()`, or the iterated expression of a `for`), the underlying source with position-preserving adapters removed."""
+    for _ in range(12):
+        while e["k"] in ("addr_of", "use", "cast") or (e["k"] == "unary" and e.get("op") == "*"):
+            e = e["e"]
+        if e["k"] == "local":
+            d = _LETS.get(e.get("var"))
+            if d is not None and d[0] == "let":
+                e = d[1]
+                continue
+            return e if seen_iter else None
+        if e["k"] == "mcall" and e["name"] in ITER_DRAW + ITER_ADAPTERS and not e["args"]:
+            seen_iter = True
+            e = e["recv"]
+            continue
+        if e["k"] == "call" and e.get("callee") and strip_generics(e["callee"]["path"]).endswith("IntoIterator::into_iter") and e["args"]:
+            seen_iter = True
+            e = e["args"][0]
+            continue
+        return e if seen_iter else None
+    return None
+
+
+def is_draw(e):
+    """`it.next()` / `it.peek()` on an iterator *variable* (a loop drawing successive elements, not `fresh().next()`)."""
+    while e["k"] in ("addr_of", "use", "cast"):
+        e = e["e"]
+    if not (e["k"] == "mcall" and e["name"] in ITER_DRAW and not e["args"]):
+        return False
+    r = e["recv"]
+    while r["k"] in ("addr_of", "use", "cast"):
+        r = r["e"]
+    return r["k"] == "local" and _LETS.get(r.get("var"), ("",))[0] in ("let", "mut")
+
+
 def short_descr(c, e, depth=0):
     """Compact, line-free description of an expression (for site keys); single-assignment locals are resolved."""
     if depth > 8:
@@ -167,6 +210,10 @@ def short_descr(c, e, depth=0):
             kind, init = d
             if kind == "mut":
                 return "%s<%s>" % (_nm(e), "; ".join("%s %s" % (op, short_descr(c, r, depth + 3)) for op, r in init))
+            if kind in ("each", "part") and not _LEGACY:
+                src = iter_source(init, kind == "each")
+                if src is not None:
+                    return "each(%s)" % short_descr(c, src, depth + 1)
             s = short_descr(c, init, depth + 1)
             if kind == "each":
                 return "each(%s)" % s
@@ -294,6 +341,14 @@ def walk_guarded(c, e, guards=()):
         cond = e["cond"]
         for x in walk_guarded(c, cond, guards):
             yield x
+        if cond["k"] == "let_cond" and not _LEGACY and pat_descr(cond["pat"]) == "Some" and is_draw(cond["init"]):
+            # `while let Some(x) = it.peek()/next()`: "the iterator had an element" is what each(..) already says
+            for x in walk_guarded(c, e["then"], guards):
+                yield x
+            if "else" in e:
+                for x in walk_guarded(c, e["else"], guards + ("!(%s~Some)" % short_descr(c, cond["init"]),)):
+                    yield x
+            return
         if cond["k"] == "let_cond":
             g = "%s~%s" % (short_descr(c, cond["init"]), pat_descr(cond["pat"]))
         elif cond["k"] == "lit" and "cfg" in c.macros(cond):
@@ -311,7 +366,13 @@ def walk_guarded(c, e, guards=()):
             yield x
         sd = short_descr(c, e["scrut"])
         for arm in e["arms"]:
-            g = "%s~%s" % (sd, pat_descr(arm["pat"]))
+            pd = pat_descr(arm["pat"])
+            # `match b { true => .., false => .. }` guards like `if b {..} else {..}`
+            if not _LEGACY and pd == "Some" and is_draw(e["scrut"]):
+                for x in walk_guarded(c, arm["body"], guards):
+                    yield x
+                continue
+            g = "%s~%s" % (sd, pd) if _LEGACY else sd if pd in ("True", "true") else ("!(" + sd + ")" if pd in ("False", "false") else "%s~%s" % (sd, pd))
             if "guard" in arm:
                 for x in walk_guarded(c, arm["guard"], guards + (g,)):
                     yield x
